@@ -617,6 +617,7 @@ func runCheck(id string, cfg propCfg, tier string, seed int64, only string) int 
 	os.MkdirAll(filepath.Dir(evPath), 0o755)
 	if only == "" {
 		os.Remove(evPath)
+		os.RemoveAll(filepath.Join(verifDir, "replays", id))
 	}
 	scratch, err := os.MkdirTemp("", "vcheck-"+id+"-")
 	if err != nil {
